@@ -74,7 +74,7 @@ func (m *gmap) saveUndo(fr *frame) {
 		saved[i] = *e
 	}
 	ps.undo = append(ps.undo, undoRec{m: m, ents: saved})
-	if ps.logWrites {
+	if ps.logWrites && ps.inOnce == 0 {
 		// Go-map mutations (insert/delete/clear) enter the write log too (zzWritesInto)
 		ps.mapWrites = append(ps.mapWrites, m)
 	}
